@@ -159,12 +159,13 @@ class FnSpaces:
                         x = a if b in self.kvals else (b if a in self.kvals else None)
                         if x is not None and self.space.get(x) == PR:
                             changed |= self.set(ins.res, PA, f'PAR_REL + k (line {ins.line})')
-                if ins.op == 'phi' and ins.res and ins.res not in self.space:
-                    sps = {self.space.get(self.root(v)) for v, _ in ins.incoming if not INT.match(v)}
+                if ins.op in ('phi', 'select') and ins.res and ins.res not in self.space and not (ins.op == 'select' and ins.ty == 'i1'):
+                    inc = ins.incoming if ins.op == 'phi' else [(v, None) for v in ins.ops[1:]]
+                    sps = {self.space.get(self.root(v)) for v, _ in inc if not INT.match(v)}
                     sps.discard(None)
                     if len(sps) == 1:
                         sp = next(iter(sps))
-                        src = [self.root(v) for v, _ in ins.incoming if self.space.get(self.root(v)) == sp][0]
+                        src = [self.root(v) for v, _ in inc if self.space.get(self.root(v)) == sp][0]
                         changed |= self.set(ins.res, sp, f'may hold {src}: ' + self.why[src])
                 if ins.op == 'load' and ins.res:
                     d = fn.defs.get(ins.ops[0])
@@ -655,18 +656,32 @@ def reconstruct_fallback_rule(P, r):
         raise AnalysisBroken('anchor vanished: xor_reconstruct_one has no fallback to the full decoder')
     if len(f.params) < 6:
         raise AnalysisBroken('anchor vanished: xor_reconstruct_one signature')
+    reach = {'data': False, 'parity': False}
     for c in calls:
         F = Facts(P, f, c.bb)
-        par_branch = any(p == 'sge' and a == 'arg4' and re.search(r'\.k$', b) for p, a, b in F.facts)
+        dom_par = any((p == 'sge' and a == 'arg4' and re.search(r'\.k$', b)) or (p == 'sle' and b == 'arg4' and re.search(r'\.k$', a)) for p, a, b in F.facts)
+        dom_data = any((p == 'slt' and a == 'arg4' and re.search(r'\.k$', b)) or (p == 'sgt' and b == 'arg4' and re.search(r'\.k$', a)) for p, a, b in F.facts)
+        if not dom_par:
+            reach['data'] = True
+        if not dom_data:
+            reach['parity'] = True
         want = {0: 'arg0', 1: 'arg1', 2: 'arg2', 3: 'arg3', 4: 'arg5'}
         got = {i: C.val(strip_int_casts(f, c.ops[i])) for i in range(5)}
         flag = C.val(c.ops[5])
-        inst = f'xor_reconstruct_one fallback at line {c.line} ({"parity" if par_branch else "data"} destination)'
+        kind = 'parity' if dom_par else ('data' if dom_data else 'data or parity')
+        inst = f'xor_reconstruct_one fallback at line {c.line} ({kind} destination)'
         bad = [f'argument {i} is {got[i]} (expected the caller\'s {want[i]})' for i in want if got[i] != want[i]]
-        if par_branch and flag in ('0',):
-            bad.append('decode_parity is 0 for a parity destination')
+        if not dom_data and flag in ('0',):
+            bad.append('decode_parity is 0 on a call that serves a parity destination')
         if bad:
             r.fail(inst, func=f.name, sig='fallback args: ' + '; '.join(bad)[:100], loc=c.loc,
                    msg='the fallback to the full decoder must receive the complete erasure list and buffers: ' + '; '.join(bad))
         else:
             r.ok(inst, func=f.name, loc=c.loc, facts={'args': got, 'decode_parity': flag})
+    inst = 'xor_reconstruct_one: a fallback exists for data and for parity destinations'
+    miss = [k for k, v in reach.items() if not v]
+    if miss:
+        r.fail(inst, func=f.name, sig=f'no fallback for {miss[0]} destinations', loc=calls[0].loc,
+               msg=f'no call of the full decoder can be reached when the destination is a {miss[0]} fragment without a cheap equation')
+    else:
+        r.ok(inst, func=f.name, loc=calls[0].loc)
